@@ -323,6 +323,7 @@ def run(chk, repo, tier):
     D11 = chk.rule('D11', 'remove_symbol_definitions: every protecting set is closed under dependencies', floor=2)
     closed_protection_sets(chk, D11, repo)
     run_d12_d14(chk, repo)
+    run_d15_d16(chk, repo)
     # ---------------------------------------------------------------- D6 closure of keep / remove sets
     D6 = chk.rule('D6', 'sets grown from the dependency graph in a single pass over a copy use a transitive traversal '
                         '(not one-step adjacency)', floor=2)
@@ -672,3 +673,89 @@ def run_d12_d14(chk, repo):
                           'an Assignment argument is looked up by its symbol: the LAST assignment of that symbol is used, '
                           'not the statement that was passed', line=I.lineno,
                           witness='X = A + B; Z = X*C; X = D: dependencies(first X statement) reports {D} and misses A and B')
+
+
+def run_d15_d16(chk, repo):
+    """D15: _get_unused_parameters_and_rvs keeps a parameter iff it is used by a statement, used by a remaining random
+    variable, or is a placeholder fixed to zero (truth table of the keep decision); D16: rhs_symbols / free_symbols of the
+    statement classes do not special-case a literal symbol name (the independent variable is configurable)"""
+    from sa import iterspace as IS
+    import itertools
+    D15 = chk.rule('D15', '_get_unused_parameters_and_rvs: a parameter is kept iff used in the statements, used by a remaining '
+                          'random variable, or fixed to zero (16 cases)', floor=16)
+    cm = repo.module('pharmpy.modeling.common')
+    f = cm.functions.get('_get_unused_parameters_and_rvs')
+    if f is None:
+        raise AnalysisError('_get_unused_parameters_and_rvs not found')
+    # the keep decision: `if T: new_params.append(p)` in a loop over the parameters (keep = T), or a comprehension that collects
+    # the parameters to drop with filters F.. followed by `[p for p in parameters if p.name not in dropped]` (keep = not all F)
+    decision = None
+    for L in [x for x in ast.walk(f.node) if isinstance(x, ast.For) and 'param' in unparse(x.iter)]:
+        for I in [x for x in L.body if isinstance(x, ast.If)]:
+            if any(isinstance(c, ast.Call) and isinstance(c.func, ast.Attribute) and c.func.attr == 'append'
+                   for s_ in I.body for c in ast.walk(s_)):
+                pv = L.target.id if isinstance(L.target, ast.Name) else None
+                decision = ('keep', I.test, pv, L)
+    if decision is None:
+        for a in ast.walk(f.node):
+            if isinstance(a, ast.Assign) and isinstance(a.value, (ast.SetComp, ast.ListComp, ast.GeneratorExp)) \
+                    and a.value.generators[0].ifs and 'param' in unparse(a.value.generators[0].iter):
+                nm = a.targets[0].id if isinstance(a.targets[0], ast.Name) else None
+                later = [b for b in ast.walk(f.node) if isinstance(b, (ast.ListComp, ast.GeneratorExp)) and b is not a.value
+                         and any(isinstance(t, ast.Compare) and isinstance(t.ops[0], ast.NotIn) and nm in unparse(t)
+                                 for t in b.generators[0].ifs)]
+                if nm and later:
+                    g = a.value.generators[0]
+                    test = g.ifs[0] if len(g.ifs) == 1 else ast.BoolOp(op=ast.And(), values=list(g.ifs))
+                    decision = ('drop', test, g.target.id if isinstance(g.target, ast.Name) else None, None)
+    if decision is None or decision[2] is None:
+        raise AnalysisError('D15: keep decision of _get_unused_parameters_and_rvs not recognised')
+    kind, test, pv, loop = decision
+    # names bound from the parameter inside the loop (symb = p.symbol)
+    alias = {}
+    if loop is not None:
+        for a in loop.body:
+            if isinstance(a, ast.Assign) and isinstance(a.targets[0], ast.Name) and unparse(a.value) == f'{pv}.symbol':
+                alias[a.targets[0].id] = 'S'
+    coll = sorted({unparse(t.comparators[0]) for t in ast.walk(test) if isinstance(t, ast.Compare)
+                   and isinstance(t.ops[0], (ast.In, ast.NotIn))})
+    if len(coll) != 2:
+        raise AnalysisError(f'D15: expected membership tests against two symbol collections, found {coll}')
+    for in1, in2, fix, zero in itertools.product((False, True), repeat=4):
+        env = {f'{pv}.symbol': 'S', f'{pv}.fix': fix, f'{pv}.init': 0 if zero else 0.1,
+               coll[0]: {'S'} if in1 else set(), coll[1]: {'S'} if in2 else set(), **alias}
+        try:
+            v = bool(IS.ev_x(test, env))
+        except Exception as ex:
+            raise AnalysisError(f'D15: keep decision not evaluable: {type(ex).__name__} {ex}')
+        keep = v if kind == 'keep' else not v
+        want = in1 or in2 or (fix and zero)
+        chk.instance(D15, f'in {coll[0]}: {in1}, in {coll[1]}: {in2}, fix {fix}, init zero {zero}: kept {keep} (wanted {want})')
+        if keep != want:
+            chk.violation(D15, cm.rel, f.name, f'{unparse(test)[:70]}: used {in1}/{in2}, fix {fix}, zero {zero} -> kept {keep}',
+                          'remove_unused_parameters_and_rvs no longer removes exactly the parameters without influence',
+                          line=test.lineno,
+                          witness='an unused parameter fixed to a non-zero value (the FIX variance of a removed eta) survives, or '
+                                  'an unused estimated parameter with initial estimate 0')
+            break
+    D16 = chk.rule('D16', 'symbol accessors of the statement classes contain no literal symbol name', floor=5)
+    sm = repo.module(MOD)
+    n = 0
+    for cname in ('Assignment', 'Bolus', 'Infusion', 'Compartment', 'CompartmentalSystem'):
+        c = sm.classes.get(cname)
+        for acc in ('free_symbols', 'rhs_symbols', 'lhs_symbols'):
+            g = c.methods.get(acc) if c else None
+            if g is None:
+                continue
+            n += 1
+            lits = [x for x in calls_in(g.node) if dotted(x.func) in ('Expr.symbol', 'Expr', 'sympy.Symbol', 'Expr.function')
+                    and x.args and isinstance(x.args[0], ast.Constant) and isinstance(x.args[0].value, str)]
+            chk.instance(D16, f'{cname}.{acc}: literal symbols {[unparse(x) for x in lits]}')
+            for x in lits:
+                chk.violation(D16, sm.rel, g.qualname, unparse(x),
+                              'a symbol is recognised by a fixed name: the independent variable (and every other symbol) of a '
+                              'model is configurable', line=x.lineno,
+                              witness='a system created with t=TIME: statements after it no longer report the amounts '
+                                      'A_CENTRAL(TIME) as symbols they depend on; dependencies() stops at the ODE system')
+    if n == 0:
+        raise AnalysisError('D16: no symbol accessor found')
